@@ -160,10 +160,18 @@ func runC06(t *testing.T, c LinCase) *kit.Result {
 					case "put":
 						v := linVal(op.Tag, c.ValPad)
 						in.val = linValName(v)
-						if err := e.Put(linKey(op.Key), v); err != nil {
+						kb := linKey(op.Key)
+						if err := e.Put(kb, v); err != nil {
 							o.err = true
 							writeErrs++
 							simrt.Note("put error: %v", err)
+						}
+						// the client reuses its buffers as soon as the call has returned
+						for i := range v {
+							v[i] ^= 0x5a
+						}
+						for i := range kb {
+							kb[i] ^= 0x5a
 						}
 					case "del":
 						if err := e.Delete(linKey(op.Key)); err != nil {
